@@ -68,8 +68,9 @@ def finalize(tier, L):
     for cid, fails in cm.items():
         if len(fails) < len(cfgkeys):
             for ck, msg in fails.items():
-                if match_known(known, 'C06', cid, ck, 'compile'):
-                    L['known_hit'].setdefault('compile', [match_known(known, 'C06', cid, ck, 'compile'), 0]); L['known_hit']['compile'][1] += 1
+                kf = match_known(known, 'C06', cid, ck, 'compile')
+                if kf:
+                    L['known_hit'].setdefault(kf['id'], [kf, 0]); L['known_hit'][kf['id']][1] += 1
                     continue
                 viol.append((cid, ck, f'accepted in {len(cfgkeys) - len(fails)} configuration(s) but rejected here: {msg[:140]}', '/verif/replays/C06/compile_' + cid))
     return viol
